@@ -18,8 +18,13 @@ def hrp_expand(hrp):
     return [ord(c) >> 5 for c in hrp] + [0] + [ord(c) & 31 for c in hrp]
 
 
-def checksum(hrp, data):
-    pm = polymod(hrp_expand(hrp) + list(data) + [0] * 6) ^ 1
+BECH32M_CONST = 0x2bc830a3
+
+
+def checksum(hrp, data, const=1):
+    """BIP173 uses the final constant 1; other constants (e.g. BIP350's) are only used to craft
+    strings that a BIP173 decoder must reject."""
+    pm = polymod(hrp_expand(hrp) + list(data) + [0] * 6) ^ const
     return [(pm >> 5 * (5 - i)) & 31 for i in range(6)]
 
 
